@@ -21,8 +21,10 @@ package main
 //                                  lose its answer; callers tolerate that).
 //   s.Get() (*FzfState, error)     GET /?limit=100000  -> parsed JSON (query, position, matchCount, totalCount,
 //                                  reading, progress, sort, current, matches[], selected[] in selection order)
-//   s.Sync() error                 returns after every action list POSTed (and key typed) before it has been
-//                                  processed by the event loop (marker hand-shake through execute-silent)
+//   s.Sync() error                 returns after every action list POSTed before it has been processed by the
+//                                  event loop (marker hand-shake through execute-silent; POSTs are run in order).
+//                                  Typed keys travel on another channel and are NOT ordered with POSTs: after
+//                                  SendKeys use WaitFor on an observable effect (e.g. the query), then Sync.
 //   s.PostSync(actions) error      Post(actions + marker) + wait: one HTTP round trip less than Post;Sync
 //   s.SendKeys(b)                  write raw bytes to the terminal (typed keys)
 //   s.Resize(cols, rows)           TIOCSWINSZ (the kernel sends SIGWINCH to fzf)
@@ -34,7 +36,8 @@ package main
 //   s.Crash() string               "" or the first "panic:" / "goroutine N [" / "fatal error:" excerpt seen on the terminal
 //   s.WaitFor(pred, timeout)       poll Get until pred(state) (eventually-equal comparisons)
 //
-// Measured on this machine (PTYSELFTEST): start-up to first frame ≈ 25–40 ms, Post+Sync+Get ≈ 3–5 ms.
+// Measured on this machine (PTYSELFTEST, 8 sessions in parallel): start-up to first frame ≈ 10 ms,
+// Post+Sync+Get ≈ 3.5 ms (≈ 280 round trips/s per session); 20 sessions of the self test in 0.4 s.
 
 import (
 	"bytes"
@@ -102,6 +105,7 @@ type Session struct {
 	done   chan struct{} // closed when the process has been reaped
 	code   int
 	marker int64
+	nonce  string
 	exited atomic.Bool
 }
 
@@ -131,13 +135,28 @@ func openPty(cols, rows int) (master *os.File, slave *os.File, err error) {
 	return os.NewFile(uintptr(fd), "ptmx"), os.NewFile(uintptr(sfd), "pts"), nil
 }
 
+var (
+	portMu    sync.Mutex
+	portsUsed = map[int]bool{}
+)
+
+// freePort asks the kernel for an unused port; ports already handed out by this process are skipped.
 func freePort() int {
-	l, err := net.Listen("tcp", "127.0.0.1:0")
-	if err != nil {
-		return 0
+	portMu.Lock()
+	defer portMu.Unlock()
+	for try := 0; try < 20; try++ {
+		l, err := net.Listen("tcp", "127.0.0.1:0")
+		if err != nil {
+			return 0
+		}
+		p := l.Addr().(*net.TCPAddr).Port
+		l.Close()
+		if !portsUsed[p] {
+			portsUsed[p] = true
+			return p
+		}
 	}
-	defer l.Close()
-	return l.Addr().(*net.TCPAddr).Port
+	return 0
 }
 
 // StartSession starts fzf; retries when the chosen port was taken in the meantime.
@@ -177,7 +196,8 @@ func startOnce(c *Ctx, o SessionOpts) (*Session, error, bool) {
 		os.RemoveAll(dir)
 		return nil, err, false
 	}
-	s := &Session{Dir: dir, master: master, outEnd: make(chan struct{}), done: make(chan struct{})}
+	s := &Session{Dir: dir, master: master, outEnd: make(chan struct{}), done: make(chan struct{}),
+		nonce: strconv.FormatInt(time.Now().UnixNano()&0xffffff, 36) + strconv.Itoa(os.Getpid()%1000)}
 	args := append([]string{}, o.Args...)
 	if !o.NoListen {
 		s.Port = freePort()
@@ -267,9 +287,13 @@ func startOnce(c *Ctx, o SessionOpts) (*Session, error, bool) {
 		time.Sleep(500 * time.Microsecond)
 	}
 	if !o.NoListen {
+		// the marker is written into OUR private directory, so this also proves that the server that answered is ours
+		// (another process may have taken the port between freePort and fzf's bind: then our fzf has exited)
 		if err := s.Sync(); err != nil {
+			scr := string(s.Screen())
+			retry := s.exited.Load() || strings.Contains(scr, "failed to listen")
 			s.Close()
-			return nil, fmt.Errorf("first sync: %v", err), false
+			return nil, fmt.Errorf("first sync: %v (%s)", err, scr), retry
 		}
 	} else {
 		time.Sleep(30 * time.Millisecond)
@@ -477,7 +501,7 @@ func (s *Session) Get() (*FzfState, error) {
 
 func (s *Session) nextMarker() (string, string) {
 	k := atomic.AddInt64(&s.marker, 1)
-	name := "m_" + strconv.FormatInt(k, 10)
+	name := "m_" + s.nonce + "_" + strconv.FormatInt(k, 10) // the nonce keeps a stray POST of another session from faking a marker
 	return name, filepath.Join(s.Dir, name)
 }
 
